@@ -43,6 +43,12 @@ def extra(binary, build, tier, rng):
           bits((1 + 2 * rng.bits(50) / float(1 << 52)) * 2.0 ** -(1 + rng.below(30)))] if tier == "quick" else \
         [bits(x) for x in (0.5, 1 / 3, 0.1, 0.9, 1e-3, 2.0 ** -20, 1e-10, 2.0 ** -52, 2.0 ** -53, 1.5 * 2.0 ** -53, 1e-16, 1e-18, 2.0 ** -63, 1.5 * 2.0 ** -64,
                                2.0 ** -64, 1 - 2.0 ** -53, 0.999, 2.2e-16, 2.3e-16, 1e-15)] + [bits(rng.bits(53) / float(1 << 53) * 2.0 ** -rng.below(60)) for _ in range(8)]
+    # + every float literal of the current source that is a probability (a threshold somebody adds to the sampler is one of them) and a p just
+    # below a power of two (where a decision keyed on the exponent of p, or on a decimal approximation of a power of two, goes wrong)
+    from . import gen_float as GF
+    k = 2 + rng.below(50)
+    ps += [bits(x) for x in GF.raw_float_literals() if 0.0 < x < 1.0 and bits(x) not in ps][:10 if tier == "quick" else 40]
+    ps += [bits(2.0 ** -k * (1 - 2.0 ** -20)), bits(2.0 ** -32 * (1 - 2.0 ** -21)), bits(2.0 ** -k) - 1]
     calls = 0
     for i, pb in enumerate(ps):
         via = ("chance", "sample")[i % 2] if (tier == "quick" and i not in (1, 2)) else None
